@@ -79,6 +79,9 @@ inductive Ev (rules : List Term) (inp : Str) : Term → Nat → Res → Prop
   | liftFail {f ts pos} : Ev rules inp (.seq ts) pos .fail → Ev rules inp (.lift f ts) pos .fail
   -- transparent wrappers and non-terminals
   | wrap {t pos r} : Ev rules inp t pos r → Ev rules inp (.wrapper t) pos r
+  -- PosMarker: the value is wrapped with line and column of the START position
+  | markOk {t pos p v} : Ev rules inp t pos (.ok p v) → Ev rules inp (.mark t) pos (.ok p (markVal inp pos v))
+  | markFail {t pos} : Ev rules inp t pos .fail → Ev rules inp (.mark t) pos .fail
   | refOk {i t pos r} : rules[i]? = some t → Ev rules inp t pos r → Ev rules inp (.ref i) pos r
   | refNone {i pos} : rules[i]? = none → Ev rules inp (.ref i) pos .fail
 
@@ -256,6 +259,14 @@ theorem sound_all (rules : List Term) (inp : Str) (hR : ∀ (i : Nat) (t : Term)
           exact ⟨rfl, fun hr => .refOk hi (ea hr)⟩
       | startTag t => simp [Term.tagFree] at htf
       | endTag t ic => simp [Term.tagFree] at htf
+      | mark t =>
+        simp only [run, hσ, Bool.false_eq_true, ↓reduceIte] at h
+        simp only [Term.tagFree] at htf
+        rcases ha : run rules inp f t pos σ with ⟨_ | _ | _, σ1⟩ <;> rw [ha] at h <;> simp only at h
+        all_goals (cases h; obtain ⟨rfl, ea⟩ := ihR _ _ _ _ _ ha htf hf; refine ⟨rfl, fun hr => ?_⟩)
+        · exact .markOk (ea (by simp))
+        · exact .markFail (ea (by simp))
+        · exact absurd rfl hr
     · intro ts pos σ r σ' h htf hf
       cases ts with
       | nil => simp only [runSeq] at h; cases h; exact ⟨rfl, fun _ => .seqNil⟩
@@ -583,6 +594,14 @@ theorem complete_aux (rules : List Term) (inp : Str)
     obtain ⟨f, rfl⟩ : ∃ g, f = g + 1 := ⟨f - 1, by omega⟩
     simp only [run, hσ, Bool.false_eq_true, ↓reduceIte]
     rw [h1 f (by omega) σ hσ]
+  | markOk _ ih1 | markFail _ ih1 =>
+    intro htf
+    simp only [Term.tagFree] at htf
+    obtain ⟨f1, h1⟩ := ih1 htf
+    refine ⟨f1 + 1, fun f hf σ hσ => ?_⟩
+    obtain ⟨f, rfl⟩ : ∃ g, f = g + 1 := ⟨f - 1, by omega⟩
+    simp only [run, hσ, Bool.false_eq_true, ↓reduceIte]
+    rw [h1 f (by omega) σ hσ]
   | refOk hi _ ih1 =>
     intro _
     obtain ⟨f1, h1⟩ := ih1 (hR _ _ hi)
@@ -793,6 +812,10 @@ theorem adv_all (rules : List Term) (inp : Str) : ∀ f,
         | none => rw [hi] at h; cases h
         | some t => rw [hi] at h; exact (ihR _ _ _ _ _ _ h).toFalse
       | startTag t =>
+        simp only [run, hσ, Bool.false_eq_true, ↓reduceIte] at h
+        rcases ha : run rules inp f t pos σ with ⟨_ | _ | _, σ1⟩ <;> rw [ha] at h <;> simp only at h <;> cases h
+        simpa only [Term.consuming] using ihR _ _ _ _ _ _ ha
+      | mark t =>
         simp only [run, hσ, Bool.false_eq_true, ↓reduceIte] at h
         rcases ha : run rules inp f t pos σ with ⟨_ | _ | _, σ1⟩ <;> rw [ha] at h <;> simp only at h <;> cases h
         simpa only [Term.consuming] using ihR _ _ _ _ _ _ ha
@@ -1135,6 +1158,12 @@ theorem nd_all (rules : List Term) (inp : Str) (k n : Nat) : ∀ s,
         simp only [Term.cost] at hf
         exact href i pos σ f (by simp [hwf]) (by omega)
       | startTag t =>
+        nd_pre
+        have h := ihR t (by omega) g pos σ f hwf href hn (by omega)
+        revert h
+        cases run rules inp f t pos σ with
+        | mk r σ1 => cases r <;> simp
+      | mark t =>
         nd_pre
         have h := ihR t (by omega) g pos σ f hwf href hn (by omega)
         revert h
